@@ -100,6 +100,18 @@ func profileFor(check, tier, variant string) *CheckDef {
 		d.MinOps, d.MaxOps = 0, 18
 		d.Diff = true
 		d.MergeHeavy = check == "C08merge"
+	case "C19":
+		// long merge-heavy runs: the segment count must not grow with the batches
+		d.MinClients, d.MaxClients = 1, 2
+		d.MinOps, d.MaxOps = 10, 120
+		d.FSOnly, d.MergeHeavy, d.PlanInv = true, true, true
+		d.MaxWindows = 200000
+		if thorough {
+			d.MaxOps = 400
+		}
+	case "C19sizes":
+		d.Check = "C19"
+		d.Special = c19SizesSpecial
 	case "C11":
 		d.MinClients, d.MaxClients = 1, 3
 		d.MinOps, d.MaxOps = 6, 22
